@@ -8,6 +8,7 @@
 From stdpp Require Import gmap list.
 From Coq Require Import ZArith.
 From KT Require Import Space Discover Cover.
+From KT Require G3 GR GQ GT2 GValid Lifecycle Rand EnsureIdem.
 
 Theorem C05_exactly_active : ∀ (draw : nat → hp → value) sp v k, wo [] sp →
   let v' := (ensure_go draw sp sp v k).1 in
@@ -17,5 +18,34 @@ Proof. exact ensure_covers'. Qed.
 Theorem C05_other_names_untouched : ∀ (draw : nat → hp → value) sp v k n, n ∉ hnames sp → (ensure_go0 draw sp v k).1 !! n = v !! n.
 Proof. exact ensure_go_other. Qed.
 
+(* ---- the sampling oracles (random search, Hyperband's first rounds, the Bayesian warm-up): whatever Oracle._random_values
+   returns - for every seeded sample table, tried set, seed and collision count - is valued on exactly the active entries *)
+Theorem C05_random_values_exactly_active : ∀ (samp : nat → Z → value) (draw : nat → hp → value) mc fuel sp tried seed col v seed',
+  wo [] sp → Rand.random_values samp draw mc fuel sp tried seed col = (Some v, seed') →
+  ∀ h, h ∈ sp → (is_Some (v !! h_name h) ↔ conds_active v (h_conds h) = true).
+Proof. exact EnsureIdem.random_values_exactly_active. Qed.
+
+(* ---- the grid oracle: production of the values themselves. Every element of the enumeration `combos` is a valid assignment
+   (a value for exactly the active entries, each taken from [default] + values) ... *)
+Theorem C05_grid_combination_valid : ∀ (sp : list G3.hp) (pre : list G3.name) (dn : G3.vals), G3.wo pre sp →
+  (∀ n, n ∈ G3.names sp → dn !! n = None) → ∀ v, v ∈ G3.combos sp dn → GValid.valid_for sp v.
+Proof. exact GValid.combos_valid. Qed.
+(* ... and in every state satisfying the grid invariant - which C09_invariant / C09_invariant_reload establish for every state of
+   every run, any number of tuners, finishing orders, retries and reloads - EVERY trial the oracle holds carries such an
+   assignment and no value for a name outside the space *)
+Theorem C05_grid_trials_valid : ∀ sp : list G3.hp, G3.wo [] sp → ∀ s : @Lifecycle.ostate GR.gstate G3.vals unit, GT2.GInv sp s →
+  ∀ id, id < length (Lifecycle.trials s) →
+    GValid.valid_for sp (GQ.val (Lifecycle.trials s) id) ∧ ∀ n, n ∉ G3.names sp → GQ.val (Lifecycle.trials s) id !! n = None.
+Proof. exact GValid.grid_trials_valid. Qed.
+(* non-vacuity: a conditional space (k only under m = 1) is well ordered and has 2 + ... combinations *)
+Example C05_grid_example :
+  let sp := [ {| G3.hname := 1%positive; G3.hconds := []; G3.hall := [1; 2]%positive |};
+              {| G3.hname := 2%positive; G3.hconds := [(1%positive, [1%positive])]; G3.hall := [1; 2; 3]%positive |} ] in
+  G3.wo [] sp ∧ length (G3.combos sp ∅) = 4.
+Proof. cbn. split; [|reflexivity]. repeat split; try set_solver; repeat constructor; set_solver. Qed.
+
 Print Assumptions C05_exactly_active.
+Print Assumptions C05_random_values_exactly_active.
+Print Assumptions C05_grid_combination_valid.
+Print Assumptions C05_grid_trials_valid.
 Print Assumptions C05_other_names_untouched.
